@@ -1,5 +1,5 @@
 #!/usr/bin/env python3
-"""seedrun.py <seeded-name> <Cxx> [Cyy ...]   (SEED_TIER=quick|thorough)
+"""seedrun.py <seeded-name | path/to/patch.diff> <Cxx> [Cyy ...]   (SEED_TIER=quick|thorough)
 
 Re-runs checks against a recorded seeded change without touching /repo: a scratch worktree of /repo's HEAD gets
 seeded/<name>/patch.diff, a scratch copy of /verif (no build output) is pointed at it through TCHERAN_REPO, and
@@ -18,7 +18,7 @@ def sh(cmd, cwd=None, env=None, timeout=7200):
 
 def main():
     name, props = sys.argv[1], sys.argv[2:]
-    tag = name.replace("/", "-")
+    tag = os.path.basename(name).replace("/", "-").replace(".diff", "")
     wt, scratch = "/tmp/sr-" + tag, "/tmp/srv-" + tag
     sh("git -C /repo worktree remove --force %s" % wt)
     rc, out = sh("git -C /repo worktree add --detach %s HEAD" % wt)
@@ -26,7 +26,8 @@ def main():
         print("worktree failed", out)
         sys.exit(2)
     try:
-        rc, out = sh("git apply %s" % os.path.join(VERIF, "seeded", name, "patch.diff"), cwd=wt)
+        diff = name if name.endswith(".diff") and os.path.exists(name) else os.path.join(VERIF, "seeded", name, "patch.diff")
+        rc, out = sh("git apply %s" % os.path.abspath(diff), cwd=wt)
         if rc != 0:
             print("PATCH DOES NOT APPLY", out)
             sys.exit(2)
